@@ -149,7 +149,7 @@ def _run_tv_one(args):
     shutil.rmtree(md, ignore_errors=True)
     os.makedirs(md, exist_ok=True)
     cmd = ["tlc", "-workers", "1", "-metadir", md, "-cleanup", "-noGenerateSpecTE", "-config", os.path.join(SPEC, cfg), os.path.join(SPEC, module)]
-    env = _tlc_env("3g", "-XX:ParallelGCThreads=2 -Dtlc2.tool.queue.IStateQueue=StateDeque")
+    env = _tlc_env("4g", "-XX:ParallelGCThreads=2 -Dtlc2.tool.queue.IStateQueue=StateDeque")
     env["TRACE"] = path
     if extra_env:
         env.update(extra_env)
